@@ -12,6 +12,26 @@ CHECKS = {
             "Trusted: gearhash's table, blake3, the reference chunker in sim/src/refmodel.rs.", "§7 C04"),
 }
 
+SESSION_NOTE = "Trusted: the independent reference chunker/hashes/shard+xorb parsers (sim/src/refmodel.rs), tokio's runtime and paused clock, the LocalClient store as the model of a server. Size-limit configuration is per worker process (env), sampled."
+def session(text, technique, level="exploration", ref="§7"):
+    return ("session", level, technique, text, SESSION_NOTE, ref)
+CHECKS.update({
+    "C01": session("Whole-system deterministic simulation: 1-4 upload sessions x concurrently cleaned files run the real pipeline (chunker, deduper, aggregator, session, shard manager, LocalClient) on a single-threaded tokio runtime with paused clock; every store call and feed call is a gate with seeded latency, so interleavings and completion orders are decided by the seed. Every file of every successful session is downloaded (whole and by ranges) after its session and again at the end and compared with the bytes fed. Seeded search; evidence, not proof.",
+                   "deterministic simulation of the upload/download pipeline with seeded scheduling of store calls and feeders; download oracle", ref="§7 C01"),
+    "C02": session("Same simulated runs; after each successful session an independent validator (own xorb and shard parsers, own hash implementations) checks every stored xorb and every file record captured at upload_shard, and both /repo validators are run as the 'server'.",
+                   "deterministic simulation + independent re-validation of everything handed to the simulated store", ref="§7 C02"),
+    "C03": session("Same simulated runs with planted twins (same bytes under different feed partitions, neighbours, sessions, dedup states, salts): pointer (hash,size) must equal the reference hash of the reference chunking and agree between twins.",
+                   "deterministic simulation with twin contents across schedules, sessions and salts; reference file hash oracle", ref="§7 C03"),
+    "C11": session("Multi-session histories on one store and shard cache: later sessions re-upload, extend and recombine content of earlier finalized sessions; oracle on the store call log and the captured shards (every stored xorb listed in the session's shards; no chunk stored by an earlier finalized session is uploaded again; unchanged re-upload has new_bytes = 0).",
+                   "deterministic simulation of session histories; conservation oracle over the simulated store's call log", ref="§7 C11"),
+    "C14": session("Same simulated runs biased to fragmentation-heavy dedup patterns under small estimator windows and to out-of-order upload completion; conservation laws on per-file and session metrics against the bytes fed and the values the simulated store actually returned.",
+                   "deterministic simulation with seeded completion order of background uploads; conservation oracle on metrics vs. store call log", ref="§7 C14"),
+    "C15": session("Same simulated runs under sampled limit configurations (1..8192 chunks, 128 KiB..64 MiB per xorb) with many small files finishing concurrently; every put is inspected at the simulated store, every stored xorb is validated, every captured shard is checked for unresolved xorb references.",
+                   "deterministic simulation; invariant observer on every simulated store call", ref="§7 C15"),
+    "C16": session("Fault enumeration over simulated histories: each sampled history is first run fault-free, then re-run once per store call (put, upload_shard) with that call failing before any effect and once with its reply lost, plus random multi-fault sets, each under re-drawn latencies; oracles on the event-sequence-stamped call log (shard never invoked before its xorbs' successful puts; failed upload implies a failing session call; a session whose calls all succeeded is reconstructible; no caller hangs).",
+                   "deterministic simulation with exhaustive single-fault injection per sampled history (fail-before / reply-lost on every store call) and seeded completion order", level="fault_enumeration", ref="§7 C16"),
+})
+
 NOT_APPLICABLE = {
     "C06": "Every clause is a pure function of its input (hash identities, text-form round trips, avalanche); there is no schedule, clock, fault or history for a simulator to control, so deterministic simulation does not apply (DESIGN §7 C06). The independent hash implementations are exercised as oracles of C02/C03/C08.",
 }
@@ -52,7 +72,7 @@ def main():
         "hooks": {
             "guard": "xet_verif",
             "enable": "RUSTFLAGS=\"--cfg xet_verif\" (set by ./check; /verif/sim depends on /repo's crates by path through the symlink sim/repo)",
-            "baseline_off_cmd": "cd /repo && cargo test --workspace --no-fail-fast --offline",
+            "baseline_off_cmd": "cd /repo && (cargo nextest run --workspace --no-fail-fast --tool-config-file pb:/w/lib/nextest.toml --profile pb --test-threads 8 --offline || cargo test --workspace --no-fail-fast --offline)",
             "source_commits": hook_commits,
             "add_only": True,
         },
